@@ -5,8 +5,9 @@ one decorated call and a channel operation nested over a decorated transport rea
 tie: Gen_Timeout.v regenerated from the source on every run + correspondence `timeout-fault`: the REAL
 decorator, real Channel/AsyncChannel operations and the real transports' read() over scripted transports
 that go silent at an enumerated point; the model's prediction (outcome, message, transport state, handler,
-timer, threads, lock) is recomputed by vm_compute and must agree; an independent oracle decides the
-property on the observations."""
+timer, threads, asyncio tasks, lock, whether a following operation on a connection left open completes) is
+recomputed by vm_compute and must agree; an independent oracle decides the property on the observations
+(asyncio: tasks / blocked reads left behind, and that the following operation receives its own output)."""
 import json
 import os
 
@@ -21,6 +22,9 @@ SOURCES = ["scrapli/decorators.py", "scrapli/settings.py", "scrapli/channel/sync
            "scrapli/transport/plugins/asyncssh/transport.py", "scrapli/transport/base/base_socket.py"]
 SLACK = 1.0
 THREAD_CLASSES = ("SystemTransport", "TelnetTransport")     # the oracle's own reading of the property text
+
+# the operation that follows a timeout on a connection left open, and what it must hand back (the oracle's own reading)
+FOLLOW_EXPECT = {"get_prompt": "router#", "get_prompt-2": "router#", "send_input": "12:00:01.001 UTC"}
 
 SIG_JOIN = "c07-thread-noterm-join"
 SIG_OVERSHOOT = "c07-signal-nested-overshoot"
@@ -174,6 +178,37 @@ def oracle(case, obs):
             f.append(("state", "%d thread(s) left running" % obs["leftover_threads"]))
         if obs["lock_held"]:
             f.append(("state", "channel lock left held"))
+        # asyncio: the counterpart of a worker thread is a task, that of a blocked worker a read nobody waits for
+        if obs.get("leftover_tasks"):
+            f.append(("state", "%d asyncio task(s) that did not exist before the call still running one loop iteration "
+                      "after it came back" % obs["leftover_tasks"]))
+        if obs.get("reads_in_flight"):
+            f.append(("state", "%d transport read(s) still waiting for the device when the call came back"
+                      % obs["reads_in_flight"]))
+        # the connection was left open (NO_TERMINATE_ON_TIMEOUT): what the device says next belongs to the next operation
+        if case.get("follow") and is_timeout and obs["alive"]:
+            fo = obs.get("follow")
+            if not fo:
+                f.append(("outcome", "the operation following the timeout was not run"))
+            else:
+                fout = fo["out"] or {}
+                if fo["swallowed"]:
+                    f.append(("state", "device output sent after the timeout (%s) was taken by a read left over from the "
+                              "timed-out operation, not by the operation that followed"
+                              % bytes.fromhex(fo["swallowed"]).decode("latin-1").__repr__()))
+                # nothing taken away from it and yet it ran into its own (sub-second) limit: a matter of wall-clock only
+                late = fout.get("cls") == "ScrapliTimeout" and not fo["swallowed"] and not fo["tasks"]
+                if fo["received"] != fo["sent"]:
+                    f.append(("timing" if late else "outcome", "the following operation (%s) received %r of the %r the device sent it" % (
+                        fo["op"], bytes.fromhex(fo["received"]), bytes.fromhex(fo["sent"]))))
+                if fout.get("kind") != "ret" or fout.get("text") != FOLLOW_EXPECT[fo["op"]]:
+                    f.append(("timing" if late else "outcome", "the following operation (%s) on the still-open connection ended with %r" % (fo["op"], fout)))
+                if fo["tasks"]:
+                    f.append(("state", "%d asyncio task(s) left running after the following operation" % fo["tasks"]))
+                if fo["lock_held"]:
+                    f.append(("state", "channel lock left held after the following operation"))
+                if not fo["alive"]:
+                    f.append(("state", "transport closed by the following operation although nothing timed out"))
     return f
 
 
@@ -218,7 +253,7 @@ Record icase := mkI {
   i_tops : N; i_ttr : N; i_fo : bytes; i_wrapped : bool; i_poll : N; i_locked : bool; i_nt : bool;
   i_reads : list leaf; i_hnd : hnd; i_delay : N; i_ival : N;
   o_out : iout; o_elapsed : N; o_alive : bool; o_restored : bool; o_tclass : N; o_rem : N; o_ival : N;
-  o_left : nat; o_lock : bool }.
+  o_left : nat; o_lock : bool; o_tasks : nat; i_fol : list leaf; o_fol : N }.
 Definition hnd_same (a b : hnd) : bool :=
   match a, b with
   | HDefault, HDefault | HIgnore, HIgnore => true
@@ -237,12 +272,29 @@ Definition tclass (s : pstate) : N :=
   if deadline s =? 0 then 0 else if deadline s <=? now s + 1 then 2 else 1.
 Definition model (c : icase) : result :=
   let m := select_mech gen_thread_classes (i_coro c) (i_cls c) (i_windows c) (i_main c) in
-  let s := mkP 1000 (i_hnd c) (if i_delay c =? 0 then 0 else 1000 + i_delay c) (i_ival c) 0 true false in
+  let s := mkP 1000 (i_hnd c) (if i_delay c =? 0 then 0 else 1000 + i_delay c) (i_ival c) 0 true false 0 in
   let To := get_timeout (i_chan c) (i_tops c) (i_ttr c) in
   let cfg := mkC true (i_nt c) To (timeout_message gen_msg_map gen_msg_default (i_fo c))
                  (i_chan c && i_wrapped c) (i_ttr c) (timeout_message gen_msg_map gen_msg_default [114;101;97;100])
-                 (i_poll c) (i_locked c) in
+                 (i_poll c) (i_locked c) true in
   run_op m cfg (i_reads c) s.
+(* the operation that follows on the connection the timeout left open (same limits, the device answers at once):
+   0 = none follows, 1 = it returns and leaves the state as it found it, 2 = anything else *)
+Definition model_follow (c : icase) (r : result) : N :=
+  match i_fol c, out r with
+  | [], _ => 0
+  | fol, Raised (ETimeout _) =>
+      if topen (rst r) then
+        let m := select_mech gen_thread_classes (i_coro c) (i_cls c) (i_windows c) (i_main c) in
+        let cfg := mkC true (i_nt c) (i_tops c) [] (i_chan c && i_wrapped c) (i_ttr c) [] 0 (i_locked c) true in
+        let r2 := run_op m cfg fol (rst r) in
+        match out r2 with
+        | Returned _ => if Nat.eqb (tasks (rst r2)) 0 && Bool.eqb (lock (rst r2)) false && topen (rst r2) then 1 else 2
+        | _ => 2
+        end
+      else 0
+  | _, _ => 0
+  end.
 Definition chk (c : icase) : bool :=
   let r := model c in
   let s' := rst r in
@@ -252,7 +304,8 @@ Definition chk (c : icase) : bool :=
     && (tclass s' =? o_tclass c)
     && (if tclass s' =? 1 then (o_rem c <=? (deadline s' - now s') + 100) && ((deadline s' - now s') <=? o_rem c + 1500)
                                && (interval s' =? o_ival c) else true)
-    && Nat.eqb (workers s') (o_left c) && Bool.eqb (lock s') (o_lock c) in
+    && Nat.eqb (workers s') (o_left c) && Bool.eqb (lock s') (o_lock c)
+    && Nat.eqb (tasks s') (o_tasks c) && (model_follow c r =? o_fol c) in
   match out r, o_out c with
   | Hang, IHang => true
   | Returned v, IRet ov => (match ov with Some x => x =? v | None => true end) && rest
@@ -290,6 +343,15 @@ def leaf_terms(case):
     return out
 
 
+def follow_code(obs):
+    fo = obs.get("follow")
+    if not fo:
+        return 0
+    good = ((fo["out"] or {}).get("kind") == "ret" and not fo["swallowed"] and not fo["tasks"] and not fo["lock_held"]
+            and fo["alive"])
+    return 1 if good else 2
+
+
 def case_term(case, obs):
     level = case["level"]
     if level == "real":
@@ -324,6 +386,9 @@ def case_term(case, obs):
         coq_list(leaf_terms(case)), hnd, str(ms(pt[0])), str(ms(pt[1])),
         io, str(ms(obs["elapsed"])), coq_bool(obs["alive"]), coq_bool(obs["handler_restored"]), str(tclass),
         str(ms(rem)), str(ms(ival)), "%d%%nat" % obs["leftover_threads"], coq_bool(obs["lock_held"]),
+        "%d%%nat" % max(obs.get("leftover_tasks", 0), obs.get("reads_in_flight", 0)),
+        coq_list(["Ret 0 0"] * (len(impl.FOLLOW_OPS[case["follow"]][1]) if case.get("follow") else 0)),
+        str(follow_code(obs)),
     ]
     return "(mkI " + " ".join(f if f[0] in "([" or f.isalnum() or f.endswith("%nat") else "(%s)" % f for f in fields) + ")"
 
@@ -408,8 +473,17 @@ def slow_cases():
     return out
 
 
-def gen_op_case(rng, op=None, k=None, combo=None):
-    is_async = rng.random() < 0.4
+REAL_ASYNC = {"asynctelnet": "AsynctelnetTransport", "asyncssh": "AsyncsshTransport"}
+
+
+def over_real_transport(c, kind):
+    """the channel operation runs over the REAL asyncio transport (its read() carries the decorator), fakes underneath"""
+    c.update(real=kind, cls=REAL_ASYNC[kind], wrapped=True, mech="asyncio-real-" + kind)
+    return c
+
+
+def gen_op_case(rng, op=None, k=None, combo=None, is_async=None, transport=None):
+    is_async = (rng.random() < 0.4) if is_async is None else is_async
     mname, mkw = rng.choice(ASYNC_MECHS if is_async else SYNC_MECHS)
     op = op or rng.choice(sorted(impl.OPS))
     chunks = impl.STREAMS[op]
@@ -440,7 +514,25 @@ def gen_op_case(rng, op=None, k=None, combo=None):
     else:
         c["stall_point"] = "none (completes)"
     c.update(prev_state(rng, allow_short=False, T=T))
-    c["label"] = "%s %s k=%d %s %s" % (op, mname, k, combo, c["steps"][-1][0] if c["steps"] else "")
+    if is_async:
+        tk = transport or rng.choice(["scripted", "scripted", "asynctelnet", "asyncssh"])
+        if tk != "scripted" and wrapped:
+            over_real_transport(c, tk)
+        if k < len(chunks):
+            # should the connection be left open by the timeout: another operation follows on it
+            c["follow"] = rng.choice(sorted(FOLLOW_EXPECT))
+    c["label"] = "%s %s k=%d %s %s" % (op, c["mech"], k, combo, c["steps"][-1][0] if c["steps"] else "")
+    if c.get("follow"):
+        c["label"] += " then %s" % c["follow"]
+    return c
+
+
+def gen_nested_async_case(rng):
+    """asyncio, a channel operation over a decorated transport read, both limits on and the channel's falls due first
+    (in the middle of a transport read that is itself under a timeout), every stall point, NO_TERMINATE on and off"""
+    op = rng.choice(sorted(impl.OPS))
+    c = gen_op_case(rng, op=op, k=rng.randrange(len(impl.STREAMS[op])), combo="outer-first", is_async=True)
+    c["no_term"] = rng.random() < 0.6
     return c
 
 
@@ -482,6 +574,21 @@ def corpus():
     for stack, (mname, mkw) in (("sync", SYNC_MECHS[0]), ("sync", SYNC_MECHS[3]), ("async", ASYNC_MECHS[0])):
         out.append(mk(stack=stack, level="op", op="get_prompt", t_ops=0.2, t_tr=1.5, wrapped=True, dribble=True, mech=mname,
                       steps=[("ddata", 0.15, b"x".hex())] * 14, label="corpus dribble %s" % mname, **mkw))
+    # asyncio, nested: the channel limit falls due while a decorated transport read (its own limit still far away) waits
+    # for the device; nothing of the timed-out operation may stay behind, and on a connection left open the next
+    # operation gets all of its own output
+    for nt in (False, True):
+        for kind, tk, op, k, fol in (("stall", "scripted", "get_prompt", 0, "get_prompt"),
+                                     ("stall_closed", "scripted", "send_input", 1, "send_input"),
+                                     ("stall", "asyncssh", "send_input", 3, "get_prompt-2"),
+                                     ("stall_closed", "asynctelnet", "send_inputs_interact", 2, "get_prompt")):
+            c = mk(stack="async", level="op", op=op, t_ops=0.1, t_tr=1.5, wrapped=True, no_term=nt, lock=(k % 2 == 1),
+                   cls="ScriptedAsyncTransport", mech="asyncio", follow=fol,
+                   steps=[("data", x.hex()) for x in impl.STREAMS[op][:k]] + [(kind,)], stall_point=impl.STALL_LABELS[op][k],
+                   label="corpus asyncio nested outer-first %s %s nt=%s %s then %s" % (op, tk, nt, kind, fol))
+            if tk != "scripted":
+                over_real_transport(c, tk)
+            out.append(c)
     # one environment-assumption case: thread mechanism, close() does not end the blocked read => the join waits
     out.append(mk(level="tleaf", cls="SystemTransport", t_tr=0.1, steps=[("stall",)], watchdog=1.2,
                   label="corpus thread, read not ended by close (model: Hang)"))
@@ -564,6 +671,8 @@ def _search(rep, rng, dist, n):
     for op in sorted(impl.OPS):
         for k in range(len(impl.STREAMS[op]) + 1):
             pool.append(gen_op_case(rng, op=op, k=k, combo="outer"))
+    for _ in range(12):
+        pool.append(gen_nested_async_case(rng))
     rng.shuffle(pool)
     for c in pool[:n]:
         if in_known_region(c):
@@ -603,12 +712,14 @@ def run(rep):
 
     dist = {"by_mechanism": {}, "by_level": {}, "by_last_step": {}, "by_timeout": {}, "no_terminate": {"on": 0, "off": 0},
             "prev_timer": {"none": 0, "pending": 0, "pending+interval": 0, "due-during-call": 0}, "stall_points": {},
-            "nesting": {}, "hang_cases": 0, "known_replayed": {}, "runtime": {}, "search_cases": 0, "lock_on": 0}
+            "nesting": {}, "hang_cases": 0, "known_replayed": {}, "runtime": {}, "search_cases": 0, "lock_on": 0,
+            "asyncio_nested_outer_first": {"no_terminate on": 0, "no_terminate off": 0}, "asyncio_over_real_transport": {},
+            "asyncio_follow_up_run": {}, "asyncio_task_observed": 0}
     _known_replays(rep, dist)
     _runtime_suite(rep, dist)
 
     cases = corpus() + slow_cases()
-    n_leaf, n_op, n_real = (420, 420, 80) if thorough else (52, 56, 10)
+    n_leaf, n_op, n_real, n_nested = (420, 420, 80, 120) if thorough else (52, 56, 10, 12)
     for T in (0.0, 0.0, 0.05, 0.3):
         cases.append(gen_leaf_case(rng, boundary=T))
     for _ in range(n_leaf):
@@ -620,6 +731,8 @@ def run(rep):
                 cases.append(gen_op_case(rng, op=op, k=k, combo="outer"))
     for _ in range(n_op):
         cases.append(gen_op_case(rng))
+    for _ in range(n_nested):
+        cases.append(gen_nested_async_case(rng))
     for real in ("system", "telnet", "asynctelnet", "asyncssh"):
         cases.append(gen_real_case(rng, real=real))
     for _ in range(n_real):
@@ -653,6 +766,16 @@ def run(rep):
             nk = "%s outer=%s inner=%s" % (m, "on" if case["t_ops"] else "off", ("on" if case["t_tr"] else "off") if case["wrapped"] else "undecorated")
             dist["nesting"][nk] = dist["nesting"].get(nk, 0) + 1
         dist["hang_cases"] += 1 if obs["hang"] else 0
+        if m == "asyncio":
+            dist["asyncio_task_observed"] += 0 if obs["hang"] else 1
+            if (case["level"] == "op" and case["wrapped"] and case["t_ops"] and case["t_tr"] > case["t_ops"]
+                    and lk in ("stall", "stall_closed")):
+                dist["asyncio_nested_outer_first"]["no_terminate %s" % ("on" if case["no_term"] else "off")] += 1
+            if case.get("real") and case["level"] == "op":
+                dist["asyncio_over_real_transport"][case["real"]] = dist["asyncio_over_real_transport"].get(case["real"], 0) + 1
+            if obs.get("follow"):
+                fk = obs["follow"]["op"]
+                dist["asyncio_follow_up_run"][fk] = dist["asyncio_follow_up_run"].get(fk, 0) + 1
         dist["lock_on"] += 1 if case["lock"] else 0
         if fails:
             oracle_fail.append(len(done) - 1)
@@ -672,7 +795,10 @@ def run(rep):
                 "(one decorated transport read | one decorated channel method | a real channel operation over a scripted transport cut at "
                 "every stall point | the real transports' read() over fakes) x (timeout 0, 0.05-0.3 s, fractional; outer/inner/both/none) x "
                 "NO_TERMINATE on/off x channel lock on/off x previous SIGALRM handler/timer (none, pending, pending with interval, due during "
-                "the call); non-trivial = the call stalls or runs for a while; distinct = the whole case")
+                "the call); asyncio: channel operation over a decorated read of a scripted or of the real asynctelnet/asyncssh transport "
+                "with the channel limit due first, tasks and blocked reads counted when the call comes back, and on a connection left open "
+                "a following operation (get_prompt / send_input) whose device output must reach it whole; "
+                "non-trivial = the call stalls or runs for a while; distinct = the whole case")
 
     reported = 0
     for ix in oracle_fail:
@@ -726,31 +852,46 @@ def replay(path):
 
 MANIFEST = {
     "text": "Coq theorems over model/Timeout.v, the decorator logic of scrapli/decorators.py for the three mechanisms (signal, worker thread, "
-            "asyncio) with an explicit clock, SIGALRM handler, interval timer, worker count, transport and lock state, one decorated call and a "
+            "asyncio) with an explicit clock, SIGALRM handler, interval timer, worker count, asyncio task count (wrapped calls still running "
+            "behind a decorated call that is over), transport and lock state, one decorated call and a "
             "channel operation nested over a decorated transport read (props/C07.v, all axiom-free): timeout_zero_disables (a timeout of 0: the "
             "operation IS its body, never ScrapliTimeout, a silent device means waiting for ever); timeout_fires (for EVERY mechanism, pair of "
             "timeouts, number of reads answered before the device goes silent, kind of stall, NO_TERMINATE setting and previous handler/timer: "
             "ScrapliTimeout with the message of the limit that fires first, no later than timeout_ops, transport closed iff NO_TERMINATE is off, "
-            "handler / timer / workers / lock as before) - PARTIAL: under the two hypotheses that are the known findings' regions; the full "
+            "handler / timer / workers / lock / asyncio tasks as before) - PARTIAL: under the two hypotheses that are the known findings' regions; the full "
             "statement is refuted (thread mechanism + NO_TERMINATE, or a read that close() does not end, hangs in the pool's join; signal over a "
             "decorated read overshoots to timeout_transport); completes_in_time and own_exception_propagates (no interference when the device "
-            "answers); the pinned commit's zeroing of ITIMER_REAL is refuted (fixed in ab1ccc2). Tie: Gen_Timeout.v (message map, thread class "
-            "names, the 16 decorated functions, defaults, ast shape of the decorator) regenerated on every run with vm_compute obligations; the "
+            "answers); the pinned commit's zeroing of ITIMER_REAL is refuted (fixed in ab1ccc2); async_uncancelled_read_left_running (a decorator "
+            "that does not hand its own cancellation on to the wrapped call - the model's c_cancel = false - leaves the decorated transport read "
+            "running whenever the channel limit falls due first: tasks + 1, state NOT restored; the code as it is, asyncio.wait_for, is "
+            "c_cancel = true). Tie: Gen_Timeout.v (message map, thread class "
+            "names, the 16 decorated functions, defaults, ast shape of the decorator incl. that the asyncio decorate() awaits the wrapped coroutine "
+            "only on the spot or through asyncio.wait_for) regenerated on every run with vm_compute obligations; the "
             "model is recomputed by vm_compute on every generated case and must agree with the REAL decorator / real channel operations / real "
-            "transports' read() over scripted transports (sync and asyncio); an independent oracle decides the property on the observations. "
+            "transports' read() over scripted transports (sync and asyncio; asyncio channel operations also over the real asynctelnet / asyncssh "
+            "transports with fakes underneath); an independent oracle decides the property on the observations, for asyncio including "
+            "asyncio.all_tasks() minus the tasks that existed before (one loop iteration after the call came back), the scripted reads still "
+            "blocked at that instant, and - nested limits with the channel limit due first, NO_TERMINATE on - a following get_prompt / "
+            "send_input on the connection left open, which must receive every byte the device sends it (none taken by a read issued "
+            "before it) and return its own result. "
             "OBSERVED ONLY (partial): wall-clock latency (<= limit + 1 s), real signal delivery, real thread scheduling, and that closing a real "
             "transport ends a blocked read (real Telnet over a loopback socket - fixed in 9660fae - and the real system transport over a pty).",
-    "note": "Trusted: Coq kernel + vm_compute; the hand model coq/model/Timeout.v (tied by the correspondence run only: ~180 cases quick, ~1000 "
+    "note": "Trusted: Coq kernel + vm_compute; the hand model coq/model/Timeout.v (tied by the correspondence run only: ~200 cases quick, ~1100 "
             "thorough, all stall points of 5 channel operations, timeouts 0 / 0.05-0.3 s / fractional, the mechanism induced by class name, "
             "non-main thread, windows flag); gen/gen_timeout.py (ast reading of decorators.py is syntactic); scripted transports and fakes under "
             "the real transports; CPython signal/threading/asyncio are modelled, not verified. Model assumptions stated as hypotheses, not axioms: "
             "reads answered before the stall return in less than timeout_transport; the previous SIGALRM handler is the user's. Ties between the "
-            "two limits are resolved as the outer one firing (generators keep >= 1 s between them). Not modelled: send_input_and_read's "
+            "two limits are resolved as the outer one firing (generators keep >= 1 s between them). The model's asyncio task count is the number of wrapped reads left behind when the call comes back (compared with "
+            "the larger of the two observations: new tasks after one loop iteration, scripted reads still blocked at return); of the "
+            "following operation the model only predicts that it runs, returns and leaves tasks / lock / transport as they were - WHICH read "
+            "receives WHICH device bytes (the swallowed-output observation) and the value the following operation returns are oracle-only. "
+            "Not modelled: send_input_and_read's "
             "suppress(ScrapliTimeout) / temporary transport timeout (C14's ground), paramiko/ssh2 internal socket timeouts, a coroutine that "
             "swallows CancelledError. Known findings: thread mechanism + NO_TERMINATE_ON_TIMEOUT joins the stalled worker; signal-over-signal "
             "nesting (third-party sync transports only) honours timeout_transport before timeout_ops. asyncio Telnet login with timeout_ops=0 "
             "(DESIGN sec. 6 no. 15) is left to C06 and kept out of the generators.",
     "technique": "Coq proofs by induction over the reads answered before the stall, per mechanism, with a state invariant (installed handler, "
                  "absolute timer deadline); refutations by vm_compute witnesses; vm_compute correspondence against the real decorator under "
-                 "enumerated stall points and fault histories; runtime observers (getsignal/getitimer, threading.enumerate, lock, isalive)",
+                 "enumerated stall points and fault histories; runtime observers (getsignal/getitimer, threading.enumerate, asyncio.all_tasks, reads "
+                 "in flight, per-read attribution of the device bytes across two consecutive operations, lock, isalive)",
 }
